@@ -23,6 +23,7 @@ struct Mon<'a> {
   source_edits: u64,
   io_bytes_by_invariance: u64,
   timer_overflows: u64,
+  other_device_configs: u64,
 }
 
 impl<'a> Mon<'a> {
@@ -180,7 +181,7 @@ pub fn run(ctx: &mut Ctx) {
     }
   }
   support::stamp_header(&mut image, 0x03, 0x02, 0x03);
-  let mut m = Mon { ctx, evaluations: 0, bytes_copied: 0, batches: 0, restarts: 0, source_edits: 0, io_bytes_by_invariance: 0, timer_overflows: 0 };
+  let mut m = Mon { ctx, evaluations: 0, bytes_copied: 0, batches: 0, restarts: 0, source_edits: 0, io_bytes_by_invariance: 0, timer_overflows: 0, other_device_configs: 0 };
   for page in 0..=255u16 {
     let page = page as u8;
     if !m.ctx.mine(page as u64) {
@@ -189,7 +190,9 @@ pub fn run(ctx: &mut Ctx) {
     m.ctx.intent2(page as u64, 0);
     let mut rng = Rng::from(&[seed, 16, page as u64]);
     let warm = 4 * (rng.below(20000) as usize);
-    let fresh = |image: &Vec<u8>| -> Box<Core> {
+    // device configuration: bit 0 = display on, bit 1 = timer running
+    let default_cfg: u8 = 2 | (page % 2);
+    let fresh = |image: &Vec<u8>, cfg: u8| -> Box<Core> {
       let mut core = support::core_from_image(image);
       // give every RAM recognisable contents
       let mp = &mut core.memory as *mut MemoryAreas;
@@ -201,19 +204,29 @@ pub fn run(ctx: &mut Ctx) {
       memory_write_byte(mp, 0x4000, 1 + page % 3);
       // the display is on for every other page (power-on LCDC is 0): the transfer then runs
       // while the LCD controller passes through modes 2, 3, 0 and 1 (`warm` sets where it starts)
-      if page % 2 == 1 {
+      if cfg & 1 != 0 {
         memory_write_byte(mp, 0xff40, 0x91);
       }
       for a in (0x8000u32..0xe000).chain(0xff80..0xffff) {
         memory_write_byte(mp, a as u16, (a as u8).wrapping_mul(3) ^ ((a >> 8) as u8));
       }
       // timer running, and some time passed: device registers are not at their power-on values
-      memory_write_byte(mp, 0xff07, 0x05);
+      // (cfg bit 1 clear: the timer is left stopped, as at power-on - DIV still counts)
+      if cfg & 2 != 0 {
+        memory_write_byte(mp, 0xff07, 0x05);
+      }
       core.memory.run_clock_cycles(ClockCycles(warm));
       core
     };
-    let mut core = fresh(&image);
+    let mut core = fresh(&image, default_cfg);
     let nplans = if thorough { 48 } else { 16 };
+    // the device-register pages and a sample of the others also with the devices as they are
+    // at power-on (display off, timer stopped) and with only one of the two running
+    let cfgs: Vec<u8> = if page >= 0xfe || page % 16 == 5 { vec![default_cfg, 0, 1, 2, 3] } else { vec![default_cfg] };
+    for (ci, &cfg) in cfgs.iter().enumerate() {
+    if ci > 0 && cfg == default_cfg {
+      continue;
+    }
     let mut finals: Vec<(Vec<u8>, String)> = Vec::new();
     for pi in 0..nplans {
       // partitions of >= 170 machine cycles
@@ -238,9 +251,9 @@ pub fn run(ctx: &mut Ctx) {
         plan.push(c);
         total += c;
       }
-      let tag = format!("plan#{}", pi);
+      let tag = if ci == 0 { format!("plan#{}", pi) } else { format!("plan#{}(display {}, timer {})", pi, if cfg & 1 != 0 { "on" } else { "off" }, if cfg & 2 != 0 { "running" } else { "stopped" }) };
       // every partition starts from the same machine state
-      core = fresh(&image);
+      core = fresh(&image, cfg);
       // device registers (page 0xFF) change while time passes: only comparable across partitions when nothing moves
       if let Some(oam) = m.scenario(&mut core, page, &plan, false, None, &tag, &mut rng) {
         finals.push((oam, tag));
@@ -260,6 +273,11 @@ pub fn run(ctx: &mut Ctx) {
         break;
       }
     }
+    if ci > 0 {
+      m.other_device_configs += 1;
+    }
+    }
+    core = fresh(&image, default_cfg);
     // source edits between batches, restarts at every progress
     for pi in 0..(if thorough { 30 } else { 8 }) {
       let mut plan: Vec<u32> = Vec::new();
@@ -299,6 +317,7 @@ pub fn run(ctx: &mut Ctx) {
   m.ctx.count("source-bytes-edited-mid-transfer", m.source_edits);
   m.ctx.count("io-page-source-bytes-decided-by-partition-invariance", m.io_bytes_by_invariance);
   m.ctx.count("batches-with-a-timer-overflow", m.timer_overflows);
+  m.ctx.count("partition-sets-under-other-device-configurations", m.other_device_configs);
 }
 
 pub fn on_crash(intent: &[u64], text: &str, status: &str, _err: &str) -> Option<(String, String)> {
